@@ -18,9 +18,12 @@ func genC15() *rapid.Generator[SeqCase] {
 		c := SeqCase{Store: rapid.SampledFrom(gcs.Stores).Draw(t, "store")}
 		pool := c15Names
 		pool = append(append([]string{}, c15Names...), gcs.HostileNames...) // URL-parser-hostile names (G6)
+		pool = append(pool, gcs.NestNames...)
 		names := rapid.SliceOfNDistinct(rapid.SampledFrom(pool), 2, 5, func(s string) string { return s }).Draw(t, "names")
-		if names = gcs.ConflictFree(names); len(names) < 2 {
-			names = append(names, "zz-extra")
+		if rapid.IntRange(0, 7).Draw(t, "nest") == 0 {
+			// names in each other's way (the runner skips a request whose name is not representable at that moment):
+			// a destination that was a directory of the file store until the objects below it were deleted
+			names = rapid.SliceOfNDistinct(rapid.SampledFrom(gcs.NestNames), 2, 4, func(s string) string { return s }).Draw(t, "nestnames")
 		}
 		buckets := gcs.BucketPool[:rapid.IntRange(1, 2).Draw(t, "nbuckets")]
 		// seed some objects (one possibly empty)
